@@ -193,6 +193,21 @@ def judge(case, part):
     fails = rejects or end_fails
     if validated != ("rejected" if fails else "ok"):
         part.fail(tag % ("validate:%s-but-expected-%s" % (validated, "rejected" if fails else "ok")), case, "rejected" if fails else "ok", validated)
+    # the validate-only API stops after N data rows: what follows them is not even read, so a record cut short at the very end of the data goes unnoticed
+    if limit is not None and header + limit < len(table) and decls[0]["fmt"] in ("delimited", "fixed") and not case.get("short_by"):
+        source, _ = readermachine.store(config, decls, table)
+        torn = harness.NamedStringIO(source.getvalue() + ('7,"torn' if decls[0]["fmt"] == "delimited" else "7"), "growing.txt")
+        try:
+            cutplace.validate(readermachine.make_cid(config, decls), torn, validate_until=limit)
+            stopped = "ok"
+        except errors.DataError:
+            stopped = "rejected"
+        except Exception as error:
+            stopped = "foreign:" + type(error).__name__
+        part.transitions += 1
+        part.validated += 1
+        if stopped != validated:
+            part.fail(tag % ("validate-reads-behind-the-limit:%s-but-%s-without-the-torn-record" % (stopped, validated)), case, validated, stopped)
     # command line
     if case.get("cli", True):
         cid_path = cid_file(config)
